@@ -90,6 +90,17 @@ Theorem C19_boxcox_inverts_normalizer :
 Proof. exact F_boxcox. Qed.
 Print Assumptions C19_boxcox_inverts_normalizer.
 
+(* array_boxcox is strictly increasing wherever it is not cut off: with the inverse-pair identity, a normal input
+   N(m, v) becomes a field whose Box-Cox normalisation is N(m + shift, v) *)
+Theorem C19_boxcox_increasing :
+  forall erf erfinv lmbda shift x y, x < y ->
+    let O := Rops erf erfinv in
+    (isclose0 O lmbda = true -> array_boxcox_elem O lmbda shift x < array_boxcox_elem O lmbda shift y) /\
+    (isclose0 O lmbda = false -> 0 < lmbda * (x + shift) + 1 -> 0 < lmbda * (y + shift) + 1 ->
+       array_boxcox_elem O lmbda shift x < array_boxcox_elem O lmbda shift y).
+Proof. exact boxcox_increasing. Qed.
+Print Assumptions C19_boxcox_increasing.
+
 (* force_moments: for every finite non-constant sample the output has EXACTLY the requested sample
    mean and (population) variance *)
 Theorem C19_force_moments_exact :
